@@ -47,6 +47,19 @@ partial def banditOps (a : Bandit.Agent Float) (acc : List String) : List String
       banditOps a ((floatToHex r ++ " " ++ floatToHex ref) :: acc) rest
   | _ => none
 
+def lossFilter (tag : Nat) : Option (List Float → List Float) :=
+  match tag with
+  | 1 => some (fun l => l.map (fun x => -x))
+  | 2 => some (fun l => l.map (fun x => x * 2.0))
+  | 3 => some List.reverse
+  | _ => none
+
+/-- stub single-coordinate losses (exactly representable on small integers) -/
+def stubLoss1d (kind : Nat) (members : List (List Float)) (real : List Float) : Float :=
+  match kind with
+  | 0 => members.foldl (fun acc m => (m.zip real).foldl (fun a p => a + (p.1 - p.2)) acc) 0.0
+  | _ => (members.headD []).headD 0.0 * 3.0 - real.headD 0.0
+
 def handle (op : String) (args : List String) : Option String :=
   match op with
   | "snap.closest" => do
@@ -138,6 +151,26 @@ def handle (op : String) (args : List String) : Option String :=
       let row := Samplers.applyShocks Float.ofNat prec lo hi 0.0 parent shocks
       let snapped := Samplers.snapBatch fdist grids [row] 0.0
       pure (fl row ++ " | " ++ joinSp (snapped.map fl))
+  | "loss.compute" => do
+      -- kind D E T | weights: -1 or D floats | filters: -1 or n tags | sim (D x E x T) | real (D x T)
+      let r ← run (do
+        let kind ← nat; let d ← nat; let e ← nat; let t ← nat
+        let nw ← int
+        let ws ← if nw < 0 then pure none else (do let l ← rep flt nw.toNat; pure (some l))
+        let nf ← int
+        let fs ← if nf < 0 then pure none else (do let l ← rep nat nf.toNat; pure (some l))
+        let sim ← rep (rep (rep flt t) e) d
+        let real ← rep (rep flt t) d
+        pure (kind, ws, fs, sim, real)) args
+      let (kind, ws, fs, sim, real) := r
+      match Loss.computeLoss Float.ofNat (stubLoss1d kind) ws (fs.map (fun l => l.map lossFilter)) sim real with
+      | .ok v => pure ("ok " ++ floatToHex v)
+      | .error (.weightsLength a b) => pure s!"err weights {a} {b}"
+      | .error (.filtersLength a b) => pure s!"err filters {a} {b}"
+  | "gsl.words" => do
+      let (ts, len) ← run (do let ts ← list nat; let l ← nat; pure (ts, l)) args
+      pure (showNats (Gsl.getWords ts len) ++ " | " ++
+        ";".intercalate ((Gsl.tupleCounts ts len).map (fun p => showNats p.1 ++ "=" ++ toString p.2)))
   | "ss.check" => do
       let (b, p) ← run (do let b ← list (list flt); let p ← list flt; pure (b, p)) args
       match SearchSpace.checkBounds (0.0 : Float) b p with
